@@ -28,6 +28,8 @@ type Model struct {
 	ro    roState
 	wo    woState
 	Ended bool // the server has ended (or must have ended) the connection
+	quietEndOK bool // this request is an empty critical read and faults are injected: see errQuietEnd
+	quietPrev  bool // the previous request was one
 
 	// Obj lets a check supply the expected bytes of non-plain objects
 	// (images, decrypted views): func(real path, virtual kind) -> object or nil.
@@ -232,10 +234,18 @@ func (m *Model) readFixed(c *Conn, n int, what string) ([]byte, error) {
 	}
 	if closed {
 		m.Ended = true
+		if len(data) == 0 && m.quietPrev && m.lenient() {
+			return data, errQuietEnd
+		}
 		return data, failf("reply-layout", "%s: connection ended after %d of %d reply bytes", what, len(data), n)
 	}
+	m.quietPrev = false
 	return data, nil
 }
+
+// errQuietEnd: the connection was found ended at a reply boundary after a request that has no reply at all (an empty
+// critical read) during which an injected fault may have ended it: the end is only noticed now and is no violation.
+var errQuietEnd = errors.New("connection ended during an earlier reply-less request")
 
 // pre holds what the harness observed of the real tree immediately before a
 // request was sent.
@@ -294,6 +304,10 @@ func (m *Model) Step(c *Conn, r Req) error {
 	}
 	m.Observe(r)
 	if err := c.Send(r.Encode()); err != nil {
+		if m.quietEndOK && m.lenient() {
+			m.Ended = true
+			return nil
+		}
 		// the server may already have closed on us only if the model says so
 		return failf("transport", "send %s failed: %v", r, err)
 	}
@@ -304,6 +318,9 @@ func (m *Model) Step(c *Conn, r Req) error {
 func (m *Model) Check(c *Conn, r Req) error {
 	start := len(c.Recv)
 	err := m.check(c, r)
+	if errors.Is(err, errQuietEnd) {
+		m.Ended, err = true, nil
+	}
 	if c.KeepRecv && m.RecordReplies {
 		m.Replies = append(m.Replies, append([]byte(nil), c.Recv[start:]...))
 		m.ReplyImage = append(m.ReplyImage, m.roIsImage && (r.Op == "READ_FILE" || r.Op == "READ_CRIT" || r.Op == "READ_CD"))
@@ -315,6 +332,7 @@ var replySize = map[string]int{"OPEN_FILE": 16, "STAT": 33, "OPEN_DIR": 4, "CREA
 
 func (m *Model) check(c *Conn, r Req) error {
 	m.tr("%s", r)
+	m.quietPrev, m.quietEndOK = m.quietEndOK, false
 	what := r.String()
 	pr := m.pre
 	m.pre = nil
@@ -1231,6 +1249,9 @@ func (m *Model) readCrit(c *Conn, r Req, what string) error {
 	}
 	if sat {
 		if r.N == 0 {
+			// nothing comes back; with fault injection the server may have ended the connection (its seek failed),
+			// which only the next request can notice
+			m.quietEndOK = m.Lenient != nil
 			return nil
 		}
 		body, err := m.readFixed(c, int(r.N), what)
@@ -1283,6 +1304,9 @@ func (m *Model) readCD(c *Conn, r Req, what string) error {
 				if off < size {
 					b, ok := m.ro.obj.ReadAt(off, int(size-off))
 					known = known && ok
+					if !ok {
+						b = make([]byte, size-off) // content unknown: only the length is judged
+					}
 					exp = append(exp, b...)
 				}
 				break
@@ -1319,6 +1343,7 @@ func (m *Model) readCD(c *Conn, r Req, what string) error {
 	}
 	if full {
 		if r.Count == 0 {
+			m.quietEndOK = m.Lenient != nil
 			return nil
 		}
 		body, err := m.readFixed(c, len(exp), what)
